@@ -4,7 +4,7 @@ import ast
 from . import sql as sqlmod
 from .repo import AnalysisError
 from .interp import Outcome, NORMAL, CFG_CLASSES
-from .terms import NONE, TRUE, FALSE, const, is_const, strip_wrappers
+from .terms import NONE, TRUE, FALSE, const, is_const, strip_wrappers, plain
 
 _sql_cache = {}
 
@@ -138,6 +138,7 @@ class MethodMixin(object):
     def reg_method(self, reg, name, args, kwargs, state, frame, node):
         if name in ("values", "items", "keys", "copy"):
             return [(state, ("call", "." + name, (reg,), ()))]
+        args = [plain(a) for a in args]
         if name in ("pop", "popitem", "clear", "remove", "discard"):
             self.ev(state, "reg_del", frame, node, reg=reg,
                     key=args[0] if args else None, how=name)
@@ -204,9 +205,10 @@ class MethodMixin(object):
         if len(params) != stmt.nparams:
             raise AnalysisError("SQL parameter count mismatch at %s:%d" % site[:2])
         self.sql_sites[site] = stmt
-        binds = bind_statement(stmt, params)
+        binds = bind_statement(stmt, [plain(x) for x in params])
         ev = self.ev(state, "sql", frame, node, db=dbn, handle=recv, stmt=stmt,
-                     params=tuple(params), binds=binds)
+                     params=tuple(params), binds=binds,
+                     src=bind_statement(stmt, params))
         if stmt.kind in ("insert", "update", "delete"):
             state.dirty = state.dirty | {dbn}
             state.wrote = True
